@@ -272,7 +272,8 @@ func classRuneSp(sp int, r rune) string {
 		return fmt.Sprintf(`\u%04x`, r)
 	case form == 4 || form == 3:
 		return fmt.Sprintf(`\U%08x`, r)
-	case form == 5 && rawOK(r):
+	case form == 5 && rawOK(r), r == utf8.RuneError && sp%2 == 1:
+		// (U+FFFD written as itself is what a careless "skip undecodable bytes" swallows)
 		return string(r)
 	}
 	return classRune(r)
